@@ -13,6 +13,9 @@
      reload  ret gb ga stb sta mb ma  C41: SHOW GRANTS of every account, stored state and probe matrix
                                       before (b) and after (a) persist -> load into a fresh engine
 
+   The stored state of an account is [a, locked, pw, g, d]: g = the static grant atoms, d = the dynamic
+   privileges it holds, each with its own grant-option flag.
+
    The steps are applied to the Privileges state with the specification's own actions; everything
    recorded is judged against that state (constraint Judge).  Disagreements are printed as
    MM <json> and validation continues: after a step whose recorded state differs, the next trace
@@ -23,18 +26,21 @@ EXTENDS Privileges
 TraceLog == ndJsonDeserialize("priv_trace.ndjson")
 
 VARIABLE l
-tvars == <<exists, grants, edges, locked, pw, active, defrole, act, ret, eff, step, l>>
+tvars == <<exists, grants, dyn, edges, locked, pw, active, defrole, act, ret, eff, step, l>>
 
 \* ---- recorded state <-> specification state -----------------------------------------------------
 Known(g) == {y \in RangeOf(g) : y.p \in AllPrivs}           \* privileges outside the model are not compared
-LogAccts(st) == {[a |-> x.a, locked |-> x.locked, pw |-> x.pw, g |-> Known(x.g)] : x \in RangeOf(st.accts)}
+KnownDyn(d) == {[p |-> y.p, wgo |-> y.wgo] : y \in {z \in RangeOf(d) : z.p \in DynPrivs}}   \* name and OWN flag
+LogAccts(st) == {[a |-> x.a, locked |-> x.locked, pw |-> x.pw, g |-> Known(x.g), d |-> KnownDyn(x.d)] : x \in RangeOf(st.accts)}
 LogEdges(st) == {[r |-> x.r, to |-> x.to, adm |-> x.adm] : x \in RangeOf(st.edges)}
-SpecAccts == {[a |-> a, locked |-> locked[a], pw |-> pw[a], g |-> grants[a]] : a \in exists}
+SpecAccts == {[a |-> a, locked |-> locked[a], pw |-> pw[a], g |-> grants[a], d |-> dyn[a]] : a \in exists}
 SameState(st) == LogAccts(st) = SpecAccts /\ LogEdges(st) = edges
 \* which components differ (for the signature of a mismatch)
 DiffWhat(A, B, EA, EB) ==
     (IF {x.a : x \in A} # {x.a : x \in B} THEN {"accounts"} ELSE {})
     \cup (IF {<<x.a, x.g>> : x \in A} # {<<x.a, x.g>> : x \in B} THEN {"grants"} ELSE {})
+    \cup (IF {<<x.a, {y.p : y \in x.d}>> : x \in A} # {<<x.a, {y.p : y \in x.d}>> : x \in B} THEN {"dynamic"}
+          ELSE IF {<<x.a, x.d>> : x \in A} # {<<x.a, x.d>> : x \in B} THEN {"dynamic-grant-option"} ELSE {})
     \cup (IF {<<x.a, x.locked>> : x \in A} # {<<x.a, x.locked>> : x \in B} THEN {"locked"} ELSE {})
     \cup (IF {<<x.a, x.pw>> : x \in A} # {<<x.a, x.pw>> : x \in B} THEN {"password"} ELSE {})
     \cup (IF {<<e.r, e.to>> : e \in EA} # {<<e.r, e.to>> : e \in EB} THEN {"role-edges"}
@@ -44,6 +50,7 @@ Pick(S, a, dflt, f) == IF \E x \in S : x.a = a THEN (CHOOSE x \in S : x.a = a)[f
 LoadAccts(A, E) ==
     /\ exists' = {x.a : x \in A} \cap Accts
     /\ grants' = [a \in Accts |-> Pick(A, a, {}, "g")]
+    /\ dyn' = [a \in Accts |-> Pick(A, a, {}, "d")]
     /\ locked' = [a \in Accts |-> Pick(A, a, FALSE, "locked")]
     /\ pw' = [a \in Accts |-> Pick(A, a, "none", "pw")]
     /\ edges' = {e \in E : e.r \in Roles /\ e.to \in Users}
@@ -52,11 +59,13 @@ LoadAccts(A, E) ==
 Obj(a) == [db |-> a.db, tbl |-> a.tbl]
 StepDefined(a) ==
     CASE a.name = "RevokePriv" -> RevokeDefined(a.a, Obj(a), RangeOf(a.ps))
+      [] a.name = "GrantPriv" -> GrantOptionDefined(a.a, Obj(a), RangeOf(a.ps))
+      [] a.name = "GrantDyn" -> DynGrantDefined(a.a, RangeOf(a.ps), a.wgo)
       [] a.name = "GrantRole" -> GrantRoleDefined(a.r, a.a, a.adm)
       [] a.name \in {"SetRole", "SetDefaultRole", "Reconnect"} -> a.a \in exists
       [] OTHER -> TRUE
 Skip(a) == /\ act' = a /\ ret' = "undefined" /\ eff' = "none" /\ step' = step + 1
-           /\ UNCHANGED <<exists, grants, edges, locked, pw, active, defrole>>
+           /\ UNCHANGED stvars
 ApplyAct(a) ==
     IF ~StepDefined(a) THEN Skip(a)
     ELSE \/ a.name = "CreateUser" /\ CreateUser(a.a, a.pw)
@@ -64,6 +73,8 @@ ApplyAct(a) ==
          \/ a.name = "DropAcct" /\ DropAcct(a.a)
          \/ a.name = "GrantPriv" /\ GrantPriv(a.a, Obj(a), RangeOf(a.ps))
          \/ a.name = "RevokePriv" /\ RevokePriv(a.a, Obj(a), RangeOf(a.ps))
+         \/ a.name = "GrantDyn" /\ GrantDyn(a.a, RangeOf(a.ps), a.wgo)
+         \/ a.name = "RevokeDyn" /\ RevokeDyn(a.a, RangeOf(a.ps))
          \/ a.name = "GrantRole" /\ GrantRole(a.r, a.a, a.adm)
          \/ a.name = "RevokeRole" /\ RevokeRole(a.r, a.a)
          \/ a.name = "SetRole" /\ SetRole(a.a, a.m)
@@ -92,7 +103,7 @@ TNext ==
             \/ e.ev = "step" /\ ApplyAct(e.act)
             \/ /\ e.ev \in {"matrix", "reload"}
                /\ act' = [name |-> e.ev]
-               /\ UNCHANGED <<exists, grants, edges, locked, pw, active, defrole, ret, eff, step>>
+               /\ UNCHANGED <<exists, grants, dyn, edges, locked, pw, active, defrole, ret, eff, step>>
 
 \* ---- judging what was recorded (CONSTRAINT, evaluated on the state reached by line l - 1) ---------
 MM(r) == PrintT("MM " \o ToJson(r))
@@ -132,6 +143,10 @@ JudgeRows(i, h, rows, pfx) ==
                                 allowed |-> Cardinality({k \in DOMAIN rows : Allowed(rows[k].u, Requirement(rows[k].cls, rows[k].db, rows[k].tbl))})]))
 
 GSet(gs) == {[a |-> x.a, g |-> RangeOf(x.g)] : x \in RangeOf(gs)}
+\* the dynamic privileges SHOW GRANTS prints for the model's accounts (sd = the replayer's reading of the
+\* lines that name dynamic privileges: name and whether that line ends in WITH GRANT OPTION)
+ShownDyn(gs) == {[a |-> x.a, d |-> KnownDyn(x.sd)] : x \in {y \in RangeOf(gs) : y.a \in Accts}}
+SpecDyn == {[a |-> a, d |-> dyn[a]] : a \in exists}
 RowKey(r) == <<r.u, r.cls, r.db, r.tbl>>
 JudgeReload(i, e) ==
     /\ (IF e.ret = "ok" THEN TRUE ELSE MM([l |-> i, h |-> e.h, kind |-> "reload-error", msg |-> IF "msg" \in DOMAIN e THEN e.msg ELSE ""]))
@@ -139,6 +154,11 @@ JudgeReload(i, e) ==
     /\ (IF GSet(e.gb) = GSet(e.ga) THEN TRUE
         ELSE MM([l |-> i, h |-> e.h, kind |-> "reload-showgrants",
                  before |-> GSet(e.gb) \ GSet(e.ga), after |-> GSet(e.ga) \ GSet(e.gb)]))
+    \* ... which, for the dynamic privileges, is what the specification state says (before and after)
+    /\ (IF ShownDyn(e.gb) = SpecDyn THEN TRUE
+        ELSE MM([l |-> i, h |-> e.h, kind |-> "showgrants-dyn", shown |-> ShownDyn(e.gb) \ SpecDyn, spec |-> SpecDyn \ ShownDyn(e.gb)]))
+    /\ (IF e.ret # "ok" \/ ShownDyn(e.ga) = SpecDyn THEN TRUE
+        ELSE MM([l |-> i, h |-> e.h, kind |-> "reload-showgrants-dyn", shown |-> ShownDyn(e.ga) \ SpecDyn, spec |-> SpecDyn \ ShownDyn(e.ga)]))
     \* the same stored state, and the one the specification is in (Reload = identity)
     /\ (IF LogAccts(e.stb) = LogAccts(e.sta) /\ LogEdges(e.stb) = LogEdges(e.sta) THEN TRUE
         ELSE MM([l |-> i, h |-> e.h, kind |-> "reload-state",
